@@ -237,6 +237,38 @@ def run_corpus_case(task, cd):
                 env_changed=r['env_changed'], sandboxes_left=cd.sandboxes())
 
 
+def run_corpus_suite(task, cd):
+    """worker side: run one of the repository's suites in one process (many executions in one trace)."""
+    from harness import inproc
+    r = inproc.run_main(['suite', task['suite']], cd, cwd=task['cwd'], trace=True)
+    return dict(exit=r['exit'], exception=r['exception'], stdout=r['stdout'][-300:], stderr=r['stderr'][-300:],
+                events=r.get('trace', []), cwd_after=r['cwd_after'], cwd_before=r['cwd_before'],
+                env_changed=r['env_changed'], sandboxes_left=cd.sandboxes())
+
+
+def validate_corpus_suites(ctx, base):
+    """The corpus run as SUITES: every case of a suite is executed in the same process, so the trace of one process
+    holds many executions - each must be a behaviour of PhaseExec, and process state must be restored in between."""
+    suites = [('test/exactly-cases', 'exactly.suite'), ('examples', 'exactly.suite')]
+    tasks = [dict(cwd=os.path.join(base, d), suite=f) for d, f in suites if os.path.exists(os.path.join(base, d, f))]
+    with ctx.pool(workers=len(tasks) or 1) as pool:
+        obs = pool.map('harness.trace_exec:run_corpus_suite', tasks, deadline=900, chunk=1)
+    items = []
+    for t, o in zip(tasks, obs):
+        name = os.path.relpath(t['cwd'], base) + '/' + t['suite']
+        if o.get('no_termination') or o.get('worker_died') or o.get('harness_exception') or o.get('exception'):
+            ctx.fail('CorpusSuiteDidNotFinish ' + name, dict(kind='corpus-suite', suite=name, obs=str(o)[:600]))
+            continue
+        if o['cwd_after'] != o['cwd_before'] or o['env_changed'] or o['sandboxes_left']:
+            ctx.fail('ProcessStateRestored corpus suite ' + name, dict(kind='corpus-suite', suite=name,
+                                                                      obs={k: o[k] for k in ('cwd_after', 'cwd_before',
+                                                                                             'env_changed',
+                                                                                             'sandboxes_left')}))
+        items.append(dict(id='suite:' + name, events=o['events'], argv=['suite', t['suite']]))
+        ctx.cov.setdefault('corpus', {})['suite ' + name] = dict(exit=o['exit'], last_line=o['stdout'].strip().split('\n')[-1])
+    validate(ctx, items, 'corpus as suites')
+
+
 def validate_corpus(ctx, quick=True):
     base = prepare_corpus(ctx)
     which = ['test/exactly-cases', 'err-msg-tests'] if quick else CORPORA
@@ -265,6 +297,8 @@ def validate_corpus(ctx, quick=True):
     ctx.cov.setdefault('corpus', {})['outcome_mix'] = mix
     ctx.cov['corpus']['files'] = len(paths)
     validate(ctx, items, 'corpus')
+    if not quick:
+        validate_corpus_suites(ctx, base)
     # negative controls: corrupted traces must be rejected
     good = []
     for it in items:
